@@ -280,6 +280,122 @@ def run(ctx):
         elif np.abs(bspline.BSplineFunc(kvs, x).grid_eval(nodes) - vals).max() > tol:
             ctx.violation('interp-nodes', 'interpolant does not match the data at the nodes', replay, True)
 
+    # ------------------------------------------------------------ data-shape handling: tuple-valued data with mixed component dtypes
+    nt = 90 if quick else 900
+    for it in range(nt):
+        dim = int(rng.choice([1, 2, 2]))
+        kvs = tuple(rand_kv(rng, bspline, pmax=3, maxspans=3) for _ in range(dim))
+        kvs = tuple(kv if kv.p >= 1 else bspline.KnotVector(np.array([kv.kv[0], kv.kv[0], kv.kv[-1], kv.kv[-1]]), 1) for kv in kvs)
+        r = min(kv.p for kv in kvs)
+        ncomp = int(rng.integers(2, 5))
+        kinds = [str(rng.choice(['int', 'intarr', 'float', 'float32', 'poly'])) for _ in range(ncomp)]
+        if rng.integers(0, 2):
+            kinds[0] = str(rng.choice(['int', 'intarr']))          # integer-typed first component
+        vec2 = bool(rng.integers(0, 4) == 0)                      # components themselves (2,)-valued -> matrix-valued data
+        comps = []
+        for kd in kinds:
+            if kd == 'int':
+                c = int(rng.integers(-3, 4)); comps.append(('int', c))
+            elif kd == 'intarr':
+                c = int(rng.integers(-3, 4)); comps.append(('intarr', c))
+            else:
+                cf = rng.integers(-4, 5, size=(r + 1,) * dim) / 4.0
+                comps.append((kd, cf))
+
+        def comp_eval(cd, *X, as64=False):
+            """one component on the (sparse or full) coordinate arrays X (given in x,y order)"""
+            kd, c = cd
+            shape = np.broadcast(*X).shape
+            if kd == 'int':
+                v = c
+            elif kd == 'intarr':
+                v = np.full(shape, c, dtype=np.int64)
+            else:
+                if dim == 1:
+                    v = sum(c[i] * X[0] ** i for i in range(r + 1))
+                else:          # X = (x, y): x is the LAST parameter direction
+                    v = sum(c[i, j] * X[0] ** i * X[1] ** j for i in range(r + 1) for j in range(r + 1))
+                if kd == 'float32':
+                    v = np.asarray(v).astype(np.float32)
+            if vec2:
+                full = np.broadcast_to(np.asarray(v), shape)
+                v = np.stack([full, 2 * full], axis=-1)
+                if kd in ('int', 'intarr'):
+                    v = v.astype(np.int64)
+            if as64:
+                v = np.asarray(v, dtype=np.float64)
+            return v
+
+        ftuple = lambda *X: tuple(comp_eval(cd, *X) for cd in comps)
+        flist = lambda *X: [comp_eval(cd, *X) for cd in comps]
+        fcomp = [lambda *X, cd=cd: comp_eval(cd, *X, as64=True) for cd in comps]
+        nodes = [kv.greville() for kv in kvs]
+        nd = tuple(kv.numdofs for kv in kvs)
+        N = int(np.prod(nd))
+        replay = {'mode': 'tuple-data', 'kvs': [(kv.p, kv.kv.tolist()) for kv in kvs], 'component_kinds': kinds, 'components_2vectors': vec2,
+                  'components': [(kd, c if isinstance(c, int) else c.tolist()) for kd, c in comps]}
+        ctx.case(('tuple', tuple((kv.p, kv.kv.tobytes()) for kv in kvs), tuple(kinds), vec2, repr(replay['components'])), nontrivial=dim >= 2)
+        ctx.count('stream=tuple-data'); ctx.count('tuple first component=' + kinds[0])
+        for kd in kinds:
+            ctx.count('tuple component kind=' + kd)
+        try:
+            Cs = [bspline.collocation(kv, n).toarray() for kv, n in zip(kvs, nodes)]
+            kappa = float(np.prod([cond_inf(C) for C in Cs]))
+            # reference values on the node grid: the components evaluated one by one in float64
+            ref_vals = np.stack([np.asarray(utils.grid_eval(fc, nodes), dtype=np.float64) for fc in fcomp], axis=-1)
+            scale = max(1.0, float(np.abs(ref_vals).max()))
+            # (1) utils.grid_eval of the tuple-valued callable = the stacked components, exactly
+            gv = np.asarray(utils.grid_eval(ftuple, nodes))
+            if gv.shape != ref_vals.shape or not np.array_equal(gv.astype(np.float64), ref_vals):
+                ctx.violation('tuple-data:grid_eval', 'utils.grid_eval of tuple-valued data (component dtypes %s) differs from the components evaluated separately: max diff %g' % (
+                    kinds, np.abs(gv.astype(np.float64) - ref_vals).max() if gv.shape == ref_vals.shape else np.inf), replay, True)
+            # (2) interpolate: callable tuple, precomputed array, component-wise scalar calls, exact model
+            tol = 64.0 * N * EPS * kappa * scale
+            xt = np.asarray(approx.interpolate(kvs, ftuple))
+            xa = np.asarray(approx.interpolate(kvs, gv, nodes=nodes))
+            xref = np.stack([np.asarray(approx.interpolate(kvs, fc)) for fc in fcomp], axis=-1)
+            for nm, xx in (('callable', xt), ('precomputed array', xa)):
+                if xx.shape != xref.shape or np.abs(xx - xref).max() > 2 * tol:
+                    ctx.violation('tuple-data:interpolate', 'interpolate of tuple-valued data (%s, component dtypes %s) differs from the component-wise scalar calls: max diff %g > %g' % (
+                        nm, kinds, np.abs(xx - xref).max() if xx.shape == xref.shape else np.inf, 2 * tol), replay, True)
+                    break
+            add('interp %s %s' % (plist(zip(kvs, nodes), lambda t: fmt_axis(*t)), fmt_tensor(ref_vals)),
+                close(xt, tol, 'interpolation coefficients of tuple-valued data'), {'op': 'interp-tuple', **replay})
+            # (3) project_L2 (parameter domain) and inner_products
+            Ms = [assemble.mass(kv).toarray() for kv in kvs]
+            tolm = 256.0 * N * EPS * float(np.prod([cond_inf(M) for M in Ms])) * scale
+            pt = np.asarray(approx.project_L2(kvs, ftuple))
+            pref = np.stack([np.asarray(approx.project_L2(kvs, fc)) for fc in fcomp], axis=-1)
+            if pt.shape != pref.shape or np.abs(pt - pref).max() > 2 * tolm:
+                ctx.violation('tuple-data:project_L2', 'project_L2 of tuple-valued data (component dtypes %s) differs from the component-wise scalar calls: max diff %g > %g' % (
+                    kinds, np.abs(pt - pref).max() if pt.shape == pref.shape else np.inf, 2 * tolm), replay, True)
+            # (4) physical coordinates through an affine geometry: interpolate(geo=) and inner_products(f_physical=True)
+            if dim == 2:
+                aff = geometry.unit_square().scale((2.0, 0.5)).translate((1.0, -3.0))
+                kvu = tuple(bspline.make_knots(max(1, kv.p), 0.0, 1.0, 2) for kv in kvs)
+                gt = np.asarray(approx.interpolate(kvu, ftuple, geo=aff))
+                gref = np.stack([np.asarray(approx.interpolate(kvu, fc, geo=aff)) for fc in fcomp], axis=-1)
+                ku = float(np.prod([cond_inf(bspline.collocation(kv, kv.greville()).toarray()) for kv in kvu]))
+                sg = max(1.0, float(np.abs(gref).max()))
+                it_ = np.asarray(assemble.inner_products(kvu, ftuple, f_physical=True, geo=aff))
+                iref = np.stack([np.asarray(assemble.inner_products(kvu, fc, f_physical=True, geo=aff)) for fc in fcomp], axis=-1)
+                if gt.shape != gref.shape or np.abs(gt - gref).max() > 128.0 * gt.size * EPS * ku * sg:
+                    ctx.violation('tuple-data:physical', 'interpolate(geo=affine) of tuple-valued physical data (component dtypes %s) differs from the component-wise calls: max diff %g' % (
+                        kinds, np.abs(gt - gref).max() if gt.shape == gref.shape else np.inf), replay, True)
+                elif it_.shape != iref.shape or np.abs(it_ - iref).max() > 1024.0 * EPS * max(1.0, float(np.abs(iref).max())) * it_.size:
+                    ctx.violation('tuple-data:physical', 'inner_products(f_physical=True) of tuple-valued data (component dtypes %s) differs from the component-wise calls: max diff %g' % (
+                        kinds, np.abs(it_ - iref).max() if it_.shape == iref.shape else np.inf), replay, True)
+        except Exception as ex:
+            ctx.violation('tuple-data:raise', 'tuple-valued data (component dtypes %s) raised %s: %s' % (kinds, type(ex).__name__, str(ex)[:150]), replay, True)
+            continue
+        # lists of components are NOT a data form of the library (only a tuple is interpreted as vector-valued; a list is handed to
+        # np.asanyarray and read as one array with the component axis first).  Outside the property: recorded, not judged.
+        try:
+            xl = np.asarray(approx.interpolate(kvs, flist))
+            ctx.count('list-valued data (unsupported form): returned an array' + (' equal to the tuple result' if xl.shape == xref.shape and np.abs(xl - xref).max() <= 2 * tol else ' with another meaning'))
+        except Exception as ex:
+            ctx.count('list-valued data (unsupported form): raised ' + type(ex).__name__)
+
     # ------------------------------------------------------------ L2 projection (parameter domain; Kronecker mass inverse)
     nl = 160 if quick else 1500
     for it in range(nl):
